@@ -261,7 +261,7 @@ def gen_c15_world(seed, index, tier):
     spec = {
         'kind': 'world', 'prop': 'C15', 'tree': tree, 'cwd': cwd, 'cmd': cmd, 'env': env,
         'listing_seed': r.getrandbits(30), 'faults': 'all', 'max_plans': 150 if tier == 'quick' else 400,
-        'restart_p': 0.3, 'restart_seed': r.getrandbits(30),
+        'restart_p': 0.3, 'restart_fault_p': 0.25, 'restart_seed': r.getrandbits(30),
         'real_crash_checks': 1 if r.random() < 0.3 else 0,
         'subprocess_check': r.random() < 0.04,
     }
